@@ -72,6 +72,10 @@ pub struct RunCtx {
     /// stop executing after the first violation
     pub stop_on_violation: bool,
     pub io_seed: u64,
+    /// an allocation failed earlier in this run (then every later failure also falsifies C14)
+    pub oom_seen: bool,
+    pub peak_inner: usize,
+    pub peak_terms: usize,
 }
 
 impl RunCtx {
@@ -86,11 +90,18 @@ impl RunCtx {
             audits,
             stop_on_violation: true,
             io_seed: 0,
+            oom_seen: false,
+            peak_inner: 0,
+            peak_terms: 0,
         }
     }
     pub fn violate(&mut self, props: &[&str], class: &str, detail: String) {
         if let Some(l) = self.log.as_mut() {
             l.push(format!("VIOLATION step={} class={} {}", self.step, class, detail));
+        }
+        let mut props: Vec<&str> = props.to_vec();
+        if self.oom_seen && !props.contains(&"C14") {
+            props.push("C14");
         }
         self.violations.push(Violation {
             props: props.iter().map(|s| s.to_string()).collect(),
@@ -116,6 +127,20 @@ pub trait Machine {
     fn audit(&mut self, model: &Model, ctx: &mut RunCtx);
     /// tear-down: drop everything, gc, A10 (initial node count, capacity probe)
     fn finish(&mut self, model: &mut Model, ctx: &mut RunCtx);
+    /// C14: drop everything but the operands of `ins`, collect, execute `ins` again.
+    /// Returns (inner nodes alive after the collection, inner nodes the instruction
+    /// added, terminals alive after the collection, terminals added, success); None if
+    /// the instruction is not applicable (operands missing)
+    fn retry(&mut self, ins: &Instr, model: &mut Model, ctx: &mut RunCtx) -> Option<RetryInfo>;
+}
+
+#[derive(Clone, Copy, Debug, Serialize, Deserialize)]
+pub struct RetryInfo {
+    pub live: usize,
+    pub delta: usize,
+    pub live_terms: usize,
+    pub delta_terms: usize,
+    pub ok: bool,
 }
 
 /// Property tag of the oracle for an instruction's result
@@ -209,4 +234,7 @@ pub struct RunResult {
     pub ids_digest: u64,
     pub steps: usize,
     pub log: Option<Vec<String>>,
+    pub peak_inner: usize,
+    pub peak_terms: usize,
+    pub retry: Option<RetryInfo>,
 }
